@@ -125,6 +125,15 @@ variable (c : Ctx) (v : Option Nat) (b : Bool) (m : Int) (st : Vm.Status) (k : N
 @[simp] theorem setMaxSize_is : (c.setMaxSize m).is = c.is := rfl
 @[simp] theorem setCell_seg : (c.setCell k v).seg = c.seg := rfl
 @[simp] theorem setCell_is : (c.setCell k v).is = c.is := rfl
+@[simp] theorem withSeg_highwater : (c.withSeg sg).highwater = c.highwater := rfl
+@[simp] theorem setIs_highwater : (c.setIs v).highwater = c.highwater := rfl
+@[simp] theorem setMap_highwater : (c.setMap m).highwater = c.highwater := rfl
+@[simp] theorem setStatus_highwater : (c.setStatus st).highwater = c.highwater := rfl
+@[simp] theorem setMaxSize_highwater : (c.setMaxSize m).highwater = c.highwater := rfl
+@[simp] theorem setCell_highwater : (c.setCell k v).highwater = c.highwater := rfl
+@[simp] theorem markHighpassed_highwater : (c.markHighpassed b).highwater = c.highwater := by unfold Ctx.markHighpassed; split <;> rfl
+theorem moveHighwater_highwater : (c.moveHighwater v).highwater = if c.is = c.highwater then v else c.highwater := by
+  unfold Ctx.moveHighwater; split <;> rfl
 @[simp] theorem markHighpassed_seg : (c.markHighpassed b).seg = c.seg := by unfold Ctx.markHighpassed; split <;> rfl
 @[simp] theorem markHighpassed_is : (c.markHighpassed b).is = c.is := by unfold Ctx.markHighpassed; split <;> rfl
 @[simp] theorem moveHighwater_seg : (c.moveHighwater v).seg = c.seg := by unfold Ctx.moveHighwater; split <;> rfl
